@@ -5,7 +5,7 @@ model run with the search state threaded.  Class D (justified by Lp.C09.history_
 every answer of the used object, of copies taken mid-sequence and of the 2-D object against an
 object that has never been queried — bit-identical (since fix c70b127 also at tabulated abscissae).
 """
-import math, random
+import math, random, struct
 from fractions import Fraction
 from common import *
 
@@ -354,7 +354,7 @@ def parse_hist(a):
 def same_bits(u, v):
     if math.isnan(u) and math.isnan(v):
         return True
-    return u == v and math.copysign(1, u) == math.copysign(1, v) or (u == v and u != 0)
+    return struct.pack("<d", u) == struct.pack("<d", v)
 
 
 def nclass(n):
@@ -393,7 +393,7 @@ def compare(rq, impl, model, ctx):
     twod = op == "c09.hist2"
     fs, both = std_outcome(rq, impl, model)
     if tag(model) == "err":
-        ctx["nontrivial"].add((op, "err", rq.split()[-2 if not twod else -1][:1]))
+        ctx["nontrivial"].add((op, "err", len(rq) % 7))
     if not both:
         return fs
     ti, tm = toks(impl), toks(model)
